@@ -17,6 +17,7 @@ from __future__ import annotations
 import ast
 
 from harness.common import TranslateError, src_text
+from translate import c15_norm
 
 SLOTS = ('_data', '_fileinfo')
 # functions that only read the pixel buffer they are given
@@ -431,14 +432,23 @@ def _compute_mipmaps(fn: ast.FunctionDef) -> dict:
                         and isinstance(st.value.func.value.slice, ast.Tuple) and ast.unparse(st.value.func.value.slice.elts[-1]) == '0':
                     info['loads_level0'] = True
     frm = None
+    frm_key: list[str] | None = None
     calls = []
     for st in loop.body:
         if isinstance(st, ast.Assign) and len(st.targets) == 1 and isinstance(st.targets[0], ast.Name) \
                 and isinstance(st.value, ast.Subscript) and ast.unparse(st.value.value) == 'self._frames' \
                 and isinstance(st.value.slice, ast.Tuple) and ast.unparse(st.value.slice.elts[-1]) == mv:
             frm = st.targets[0].id
+            frm_key = [ast.unparse(e) for e in st.value.slice.elts[:-1]]
     if frm is None:
-        _err(loop, 'compute_mipmaps: level lookup not recognised')
+        # no local names the level: the lookup expression itself is used (`self._frames[f, s, m]._data`, `....rescale_from(`)
+        lookups = {ast.unparse(n): n for st in loop.body for n in ast.walk(st)
+                   if isinstance(n, ast.Subscript) and ast.unparse(n.value) == 'self._frames' and isinstance(n.slice, ast.Tuple)
+                   and ast.unparse(n.slice.elts[-1]) == mv}
+        if len(lookups) != 1:
+            _err(loop, 'compute_mipmaps: level lookup not recognised')
+        frm, node = lookups.popitem()
+        frm_key = [ast.unparse(e) for e in node.slice.elts[:-1]]
 
     def find_calls(stmts, guard):
         for st in stmts:
@@ -465,8 +475,7 @@ def _compute_mipmaps(fn: ast.FunctionDef) -> dict:
     a0 = c.args[0] if c.args else None
     info['from_previous'] = (isinstance(a0, ast.Subscript) and ast.unparse(a0.value) == 'self._frames' and isinstance(a0.slice, ast.Tuple)
                              and ast.unparse(a0.slice.elts[-1]) == f'{mv} - 1'
-                             and [ast.unparse(e) for e in a0.slice.elts[:-1]] ==
-                             [ast.unparse(e) for e in next(s for s in loop.body if isinstance(s, ast.Assign)).value.slice.elts[:-1]])
+                             and [ast.unparse(e) for e in a0.slice.elts[:-1]] == frm_key)
     return info
 
 
@@ -491,8 +500,25 @@ def _save_frames(fn: ast.FunctionDef) -> dict:
             break
         inner = fors[0]
     var = None
+    buf = None          # the local that holds the encoded bytes of the frame (whatever it is called)
     steps: list[str] = []
+    def _is_lookup_stmt(x) -> bool:
+        if isinstance(x, ast.Try):
+            return any(_is_lookup_stmt(y) for y in x.body)
+        return isinstance(x, ast.Assign) and isinstance(x.value, ast.Subscript) and ast.unparse(x.value.value) == 'self._frames'
+    if not any(_is_lookup_stmt(x) for x in inner.body):
+        # no local names the looked-up frame: the lookup expression itself is used throughout
+        exprs = {ast.unparse(y) for x in inner.body for y in ast.walk(x) if isinstance(y, ast.Subscript) and ast.unparse(y.value) == 'self._frames'}
+        if len(exprs) == 1:
+            var = exprs.pop()
     for st in inner.body:
+        if isinstance(st, ast.Try) and len(st.body) == 1 and not st.orelse and not st.finalbody and len(st.handlers) == 1 \
+                and len(st.handlers[0].body) == 1 and isinstance(st.handlers[0].body[0], ast.Assign) \
+                and isinstance(st.handlers[0].body[0].value, ast.Call) and ast.unparse(st.handlers[0].body[0].value.func) == 'Frame' \
+                and isinstance(st.body[0], ast.Assign) and ast.unparse(st.body[0].targets[0]) == ast.unparse(st.handlers[0].body[0].targets[0]):
+            # `try: frame = self._frames[key]  except KeyError: frame = Frame(...)`: a side the object does not have is a fresh
+            # frame (no pixels, no file source: written blank); the shape of the handler is judged by the layout translator
+            st = st.body[0]
         if isinstance(st, ast.Assign) and isinstance(st.value, ast.Subscript) and ast.unparse(st.value.value) == 'self._frames':
             var = st.targets[0].id if isinstance(st.targets[0], ast.Name) else None
             continue
@@ -501,14 +527,16 @@ def _save_frames(fn: ast.FunctionDef) -> dict:
         s = ast.unparse(st)
         if s == f'{var}.load()':
             steps.append('SvLoad')
-        elif isinstance(st, ast.If) and ast.unparse(st.test) == f'{var}._data is not None' and not st.orelse and len(st.body) == 1 \
-                and ast.unparse(st.body[0]).startswith(f'_format_funcs.save(self.format, {var}._data, data,'):
+        elif buf is not None and isinstance(st, ast.If) and ast.unparse(st.test) == f'{var}._data is not None' and not st.orelse and len(st.body) == 1 \
+                and ast.unparse(st.body[0]).startswith(f'_format_funcs.save(self.format, {var}._data, {buf},'):
             steps.append('SvEncodeIfData')
-        elif s.startswith(f'_format_funcs.save(self.format, {var}._data, data,'):
+        elif buf is not None and s.startswith(f'_format_funcs.save(self.format, {var}._data, {buf},'):
             steps.append('SvEncodeAlways')
-        elif s == 'file.write(data)':
+        elif buf is not None and s == f'file.write({buf})':
             steps.append('SvWrite')
-        elif isinstance(st, ast.Assign) and ast.unparse(st.targets[0]) == 'data' and s.startswith('data = bytearray(self.format.frame_size('):
+        elif isinstance(st, ast.Assign) and len(st.targets) == 1 and isinstance(st.targets[0], ast.Name) \
+                and ast.unparse(st.value).startswith('bytearray(self.format.frame_size(') and buf in (None, st.targets[0].id):
+            buf = st.targets[0].id
             continue
         else:
             _err(st, f'save: statement in the frame loop not understood: {s[:70]}')
@@ -517,7 +545,7 @@ def _save_frames(fn: ast.FunctionDef) -> dict:
 
 
 def frame_info() -> dict:
-    tree = ast.parse(src_text('vtf.py'))
+    tree = c15_norm.normalised_tree(src_text('vtf.py'))
     frame = next((n for n in tree.body if isinstance(n, ast.ClassDef) and n.name == 'Frame'), None)
     vtf = next((n for n in tree.body if isinstance(n, ast.ClassDef) and n.name == 'VTF'), None)
     if frame is None or vtf is None:
